@@ -45,6 +45,13 @@ def tmStep (w : TmWorld) (toks : List String) : TmWorld × String :=
     let w := { w with timers := w.timers.modify k.toNat! fun t => t.refresh w.now }; (w, tmAnswer w [])
   | ["stop", k] =>
     let w := { w with timers := w.timers.modify k.toNat! Tm.stop }; (w, tmAnswer w [])
+  -- created and cancelled (or refreshed and cancelled) back to back, nothing scheduled in between
+  | ["timeoutstop", k, p] =>
+    let w := { w with timers := setAt w.timers k.toNat! (Tm.start false p.toNat! w.now).stop }; (w, tmAnswer w [])
+  | ["intervalstop", k, p] =>
+    let w := { w with timers := setAt w.timers k.toNat! (Tm.start true p.toNat! w.now).stop }; (w, tmAnswer w [])
+  | ["refreshstop", k] =>
+    let w := { w with timers := w.timers.modify k.toNat! fun t => (t.refresh w.now).stop }; (w, tmAnswer w [])
   | ["clearnil"] => (w, tmAnswer w [])
   | ["sleep", d] =>
     let target := w.now + d.toNat!
